@@ -38,6 +38,14 @@ if [ ! -x "$BIN" ]; then
   exit 2
 fi
 LOG=logs/run-$ID-$TIER.log
+export VERIF_MODFLAG="$MODFLAG"
+if [ "$ID" = "C10" ]; then
+  # a second, -race build of the same checker: a share of the C10 cases runs under it (checkptr)
+  RBIN=bin/vcheck-C10-race.$$
+  if go build $MODFLAG -race -tags verif -o "$RBIN" ./cmd/vcheck 2>> logs/build-$ID.log; then
+    export VERIF_RACE_BIN="$VERIF_DIR/$RBIN"
+  fi
+fi
 if [ -n "$RACE" ]; then
   # exploration mode: reports go to files and are counted by the checker, not trusted to the exit code
   rm -f logs/race-$ID.$$.*
@@ -46,7 +54,7 @@ if [ -n "$RACE" ]; then
 fi
 VERIF_DIR="$VERIF_DIR" VERIF_REPO="$REPO" "$BIN" -check "$ID" -tier "$TIER" "$@" 2> >(tee "$LOG.stderr" >&2)
 RC=$?
-rm -f "$BIN"
+rm -f "$BIN" ${RBIN:-}
 [ -n "$RACE" ] && rm -f logs/race-$ID.$$.*
 case $RC in
   0|1|3) exit $RC ;;
